@@ -29,19 +29,23 @@ case "$what" in
   ;;
  determinism)
   "$VERIF/simctl" build "$W/b" 0 || exit 2
-  props="${2:-C07 C04 C09 C17 C18}"
+  "$VERIF/simctl" build "$W/r" 1 || exit 2
+  props="${2:-C07 C01 C04 C08 C09 C10 C16 C17 C18}"
   rc=0
   for p in $props; do
+    prc=0
+    B="$W/b"; N=24
+    [ "$p" = C16 ] && B="$W/r" && N=12
     for seed in 1 2 3 4 5 6 7 8; do
       ref=""
       for mp in 1 4 16 2; do
-        out="$(cd "$W/b" && GOMAXPROCS=$mp ./simh digest -prop $p -seed $seed -n 24 2>&1)"
+        out="$(cd "$B" && GOMAXPROCS=$mp GORACE="halt_on_error=1 exitcode=66" ./simh digest -prop $p -seed $seed -n $N 2>&1)"
         if [ -z "$ref" ]; then ref="$out"; elif [ "$out" != "$ref" ]; then
-          echo "selftest determinism: property $p seed $seed diverges at GOMAXPROCS=$mp" >&2; rc=2
+          echo "selftest determinism: property $p seed $seed diverges at GOMAXPROCS=$mp" >&2; rc=2; prc=2
         fi
       done
     done
-    echo "determinism $p: 8 seeds x 4 processes (GOMAXPROCS 1,4,16,2) x 24 cases identical: $([ $rc = 0 ] && echo yes || echo NO)"
+    echo "determinism $p: 8 seeds x 4 processes (GOMAXPROCS 1,4,16,2) x $N cases identical: $([ $prc = 0 ] && echo yes || echo NO)"
   done
   exit $rc
   ;;
